@@ -73,6 +73,7 @@ class Task:
         self.ev = threading.Event()
         self.exc = None
         self.result = None
+        self.lost = False  # the result never reaches the parent
         self.th = None
         if fn is not None:
             self.th = threading.Thread(target=self._run, daemon=True, name="sim-" + name)
@@ -94,8 +95,35 @@ class Task:
             self.s.fatal = e
             self.s.main.ev.set()
             return
-        except BaseException as e:  # the task's exception surfaces from AsyncResult.get()
-            self.exc = e
+        except BaseException as e:  # the task's exception surfaces from AsyncResult.get() - after a pickle round trip
+            import pickle
+            import traceback as _tb
+            try:
+                # like multiprocessing's ExceptionWithTraceback: the remote traceback travels as text
+                e._sim_remote_traceback = "".join(_tb.format_exception(type(e), e, e.__traceback__))
+            except Exception:
+                pass
+            try:
+                data = pickle.dumps(e)
+            except Exception as pe:
+                from multiprocessing.pool import MaybeEncodingError
+                self.exc = MaybeEncodingError(pe, repr(e))
+            else:
+                try:
+                    self.exc = pickle.loads(data)
+                except Exception:
+                    # real Pool: the parent's result-handler thread dies while rebuilding the exception and the
+                    # AsyncResult is never completed - job.get() waits forever
+                    self.exc = None
+                    self.lost = True
+                    self.s.ctx.counters.inc("result_lost_unpicklable_exception")
+        else:
+            try:
+                self.result = ipc_copy(self.result)
+            except Exception as pe:
+                from multiprocessing.pool import MaybeEncodingError
+                self.exc = MaybeEncodingError(pe, repr(self.result))
+                self.result = None
         self.s.on_process_exit(self)
         self.state = "done"
         self.s.log("exit" if self.exc is None else "raise", self.name)
@@ -263,14 +291,33 @@ class Sched:
             raise HarnessError("simulated processes not reaped: %r" % alive)
 
 
+_QUEUES = {}
+
+
+def _lookup_queue(key):
+    return _QUEUES[key]
+
+
+def ipc_copy(x):
+    """What crosses a process boundary is pickled on one side and rebuilt on the other."""
+    import pickle
+    return pickle.loads(pickle.dumps(x))
+
+
 class SimQueue:
     def __init__(self, s):
         self.s = s
         self.items = []
+        self.key = id(self)
+        _QUEUES[self.key] = self
+
+    def __reduce__(self):
+        # a manager queue travels as a proxy that refers to the same server-side queue
+        return (_lookup_queue, (self.key,))
 
     def put(self, x, block=True, timeout=None):
         self.s.yield_("put:pre")
-        self.items.append(x)
+        self.items.append(ipc_copy(x))
         self.s.yield_("put:post")
 
     def get(self, block=True, timeout=None):
@@ -304,7 +351,7 @@ class SimResult:
         self.task = task
 
     def get(self, timeout=None):
-        ok = self.s.yield_("job.get", cond=lambda: self.task.state == "done", timeout=timeout)
+        ok = self.s.yield_("job.get", cond=lambda: self.task.state == "done" and not self.task.lost, timeout=timeout)
         if not ok:
             import multiprocessing
             raise multiprocessing.TimeoutError()
@@ -313,7 +360,7 @@ class SimResult:
         return self.task.result
 
     def wait(self, timeout=None):
-        self.s.yield_("job.wait", cond=lambda: self.task.state == "done", timeout=timeout)
+        self.s.yield_("job.wait", cond=lambda: self.task.state == "done" and not self.task.lost, timeout=timeout)
 
     def ready(self):
         return self.task.state == "done"
@@ -343,6 +390,8 @@ class SimPool:
         if self.closed:
             raise ValueError("Pool not running")
         name = "p%d" % len(self.jobs)
+        # the task (bound method = a copy of the program object, its arguments) is pickled to the worker
+        fn, args, kwds = ipc_copy((fn, tuple(args), dict(kwds)))
         task = Task(self.s, name, lambda: fn(*args, **kwds), pool=self)
         self.s.tasks.append(task)
         self.jobs.append(task)
